@@ -1,7 +1,8 @@
 #!/usr/bin/env python3
 """Confirm a seeded change and record which checks report it.
 
-usage: tools/confirm_seeded.py <seeded_dir> <property_id> <short-id> [--repo DIR]
+usage: tools/confirm_seeded.py <seeded_dir> <property_id> <short-id> [--repo DIR] [--no-checks] [--round N]
+       (--no-checks: steps 1, 2, 4 only; the checks are then run by tools/eval_all.py)
 
  1. demo on the clean tree must pass (exit 0); with patch.diff applied it must fail (exit != 0);
  2. with the patch applied every stable_pass test of BASELINE.json must still pass;
@@ -11,7 +12,7 @@ The tree DIR (default /repo) is restored in every case.
 """
 import sys, os, subprocess, json, shutil, time
 VERIF = os.path.dirname(os.path.dirname(os.path.abspath(__file__)))
-args = [a for a in sys.argv[1:] if not a.startswith("--")]
+args = [a for i, a in enumerate(sys.argv[1:], 1) if not a.startswith("--") and sys.argv[i - 1] not in ("--repo", "--round")]
 src, pid, short = os.path.abspath(args[0]), args[1], args[2]
 repo = "/repo"
 if "--repo" in sys.argv:
@@ -47,7 +48,7 @@ try:
     meta["stable_ok"] = b.returncode == 0
     man = json.load(open(os.path.join(VERIF, "MANIFEST.json")))
     fired, lines, infra = [], {}, []
-    for c in man["checks"]:
+    for c in ([] if "--no-checks" in sys.argv else man["checks"]):
         p = subprocess.run(c["quick_cmd"].split(), cwd=VERIF, capture_output=True, text=True,
                            env=dict(env, VERIF_SEED=os.environ.get("VERIF_SEED", "0")))
         vio = [l for l in p.stdout.split("\n") if l.startswith("VIOLATION")]
@@ -67,6 +68,8 @@ finally:
     subprocess.run(["git", "-C", repo, "checkout", "--", "."], check=True)
 meta["confirmed"] = (rc0 == 0 and meta.get("demo_patched", {}).get("rc", 0) != 0 and meta.get("stable_ok", False))
 meta["detected_by_target_check"] = pid in meta.get("checks_reporting", [])
+if "--round" in sys.argv:
+    meta["round"] = int(sys.argv[sys.argv.index("--round") + 1])
 meta["ran"] = ("demo on clean tree; git apply patch.diff; demo (must fail); tools/baseline_check.py (1092 stable tests); "
                "every quick_cmd of MANIFEST.json with NASIM_REPO at the patched tree; git checkout -- .")
 dst = os.path.join(os.environ.get("SEEDED_OUT", os.path.join(VERIF, "seeded")), short)
